@@ -381,8 +381,13 @@ def run(tier, replay=None):
         if not pv["accepted"]:
             _, ev = stuck(pv["out"])
             m = re.search(r"eps \|-> <<(.*?)>>,", pv["out"], re.S)
-            rep.violation("park:lost-wakeup", "a session was parked with pending output and nobody to wake its writer: %s" % (
-                re.sub(r"\s+", " ", m.group(1))[:400] if m else ev[:400]), pv["out"][-4000:], name="park_violation.txt")
+            eps = re.sub(r"\s+", " ", m.group(1)) if m else ev
+            if "halfzero |-> TRUE" in eps:
+                rep.violation("park:control-marked-inside-frame", "the control-frame buffer of an HTTP/2 connection is marked for writing while a stream "
+                              "frame is only partly on the wire (H2Wire!P_Markers): %s" % eps[:400], pv["out"][-4000:], name="park_violation.txt")
+            else:
+                rep.violation("park:lost-wakeup", "a session was parked with pending output and nobody to wake its writer: %s" % eps[:400],
+                              pv["out"][-4000:], name="park_violation.txt")
     else:
         raise vlib.ToolError("no mux_ready_exit snapshot was recorded (hook missing?)")
 
